@@ -39,7 +39,9 @@ def install():
 
     def start(self):
         if not self.started:
-            log(ev='start')
+            # again: this agent OBJECT has been started (and shut down) before
+            log(ev='start', again=bool(getattr(self, '_verif_started_before', False)))
+            self._verif_started_before = True
         return o_start(self)
 
     def shutdown(self):
@@ -89,15 +91,37 @@ def install():
 
     def new_config(self, triggers):
         r = o_cfg(self, triggers)
-        log(ev='installed', ids=sorted({a.id for t in triggers for a in t.actions}))
+        ids = sorted({a.id for t in triggers for a in t.actions})
+        with LOCK:
+            svc_ids = set(TPS)
+        # ids of the service's tracepoints (all seen in an answer before), and how many registered in code came along
+        log(ev='installed', ids=[i for i in ids if i in svc_ids], regs=len([i for i in ids if i not in svc_ids]))
         return r
     TriggerHandler.new_config = new_config
+
+    o_add, o_rem = TracepointConfigService.add_custom, TracepointConfigService.remove_custom
+
+    def add_custom(self, *a, **kw):
+        log(ev='register')                    # before the call: the update task it submits may run at once
+        try:
+            return o_add(self, *a, **kw)
+        except BaseException:
+            log(ev='register_failed')
+            raise
+
+    def remove_custom(self, _id):
+        if _id in self._custom_ids:
+            log(ev='unregister')
+        return o_rem(self, _id)
+    TracepointConfigService.add_custom, TracepointConfigService.remove_custom = add_custom, remove_custom
 
     o_push = PushService._push_task
 
     def _push_task(self, snapshot):
         r = o_push(self, snapshot)
-        log(ev='recv', id=snapshot.tracepoint.id)
+        with LOCK:
+            is_reg = snapshot.tracepoint.id not in TPS
+        log(ev='recv', id=snapshot.tracepoint.id, reg=is_reg)
         return r
     PushService._push_task = _push_task
 
